@@ -15,7 +15,7 @@ from common import REPO, WORK
 SUFFIX = os.environ.get("VERIF_KANI_TARGET_SUFFIX", "")
 MIR_DIR = os.path.join(WORK, "mir" + SUFFIX)
 POOL_PROPS = {"C01", "C02", "C09", "C10", "C13", "C20"}
-MIR_PROPS = POOL_PROPS | {"C06", "C15", "C08", "C03", "C04", "C14", "C05", "C11", "C19", "C17", "C12"}
+MIR_PROPS = POOL_PROPS | {"C06", "C15", "C08", "C03", "C04", "C14", "C05", "C11", "C19", "C17", "C12", "C16"}
 
 
 def source_hash():
@@ -233,6 +233,41 @@ def _run_property(pid, tier, seed, logdir):
         except (Unsupported, Unwind) as e:
             obligations.append(dict(name="c06_cache_wrapper_key_and_gate", engine="mirsym", functions=[], bounds="", oracle="", stubs=[], tier=tier,
                                     verdict="inconclusive", reason=f"outside the encoder's subset: {e}", queries=0, solver_time_s=0, failed=[]))
+        return obligations
+    if pid == "C16":
+        from mirsym import props_cookie, enums as _en
+        structs = _en.scan_structs(REPO)
+        jobs = []
+        kstubs = ["HMAC-SHA-256 = uninterpreted function of (key, message): which key and which octets enter the MAC is decided, the MAC itself is not executed; that distinct inputs give distinct MACs is the cryptographic assumption the property rests on",
+                  "system random generator = fresh arbitrary octets per call; clock / refresh time not modelled",
+                  "NetAddr::ip() = the client address of the message"]
+
+        def kjob(name, thunk, bounds, oracle):
+            def job():
+                t0 = time.time()
+                try:
+                    failed, ex, npaths, kinds = thunk()
+                    for f in failed:
+                        f["check"] = name
+                    return dict(name=name, engine="mirsym", functions=sorted(f.split("::")[-1] for f in ex.encoded_fns), bounds=bounds, oracle=oracle, stubs=kstubs + sorted(ex.used_summaries),
+                                tier=tier, **_vr(failed, ex), queries=ex.queries, solver_time_s=round(ex.solver_time, 2), failed=_dedup(failed), paths=npaths,
+                                path_kinds={str(k): v for k, v in kinds.items()}, wall_s=round(time.time() - t0, 1))
+                except (Unsupported, Unwind) as e:
+                    return dict(name=name, engine="mirsym", functions=[], bounds=bounds, oracle=oracle, stubs=kstubs, tier=tier, verdict="inconclusive",
+                                reason=f"outside the encoder's subset: {e}", queries=0, solver_time_s=0, failed=[])
+            return (name, job)
+        jobs.append(kjob("c16_cookie_key_set_is_two_random_keys", (lambda: props_cookie.keys_obligation(prog, en, structs)), "CookieKeys::new + rotate from MIR",
+                         "a fresh key set holds two independently drawn random keys (previous drawn before current), never the all-zero default"))
+        cases = [(False, False, 32), (True, True, 32), (True, False, 32), (False, False, None), (False, False, -1), (False, False, 8), (False, False, 16)]
+        if tier == "thorough":
+            cases += [(False, True, 32), (False, False, 31), (False, False, 24), (True, True, 8)]
+        for l6, r6, sl in cases:
+            name = "c16_cookie_validation_%s_%s_%s" % ("v6" if l6 else "v4", "v6" if r6 else "v4", "no_option" if sl == -1 else "client_only" if sl is None else "server%d" % sl)
+            jobs.append(kjob(name, (lambda l6=l6, r6=r6, sl=sl: props_cookie.validate_obligation(prog, en, structs, l6, r6, sl)),
+                             "DnsMessage::validate_cookie_keys + validate_cookie_key + calculate_cookie + EdnsData::get_cookie from MIR: server address IPv%d, client address IPv%d, %s; both keys, the client cookie, the server cookie and both addresses symbolic"
+                             % (6 if l6 else 4, 6 if r6 else 4, "no COOKIE option" if sl == -1 else "client cookie only" if sl is None else "server cookie of %d octets" % sl),
+                             "the verdict is Good exactly when the server cookie equals HMAC(current key, client cookie || server address || client address) or the same under the previous key; never Good without a 32-octet server cookie"))
+        obligations.extend(run_jobs(jobs))
         return obligations
     if pid == "C12":
         from mirsym import props_dhcpwire, enums as _en
